@@ -261,6 +261,7 @@ class Interp:
         # ghost observation of locals: {function qualname suffix: callback(frame_locals, lineno)} called
         # after every assignment statement of that function (used for lemma chains; never changes state)
         self.watch = {}
+        self.loop_heads = {}  # ghost hooks at the head of every `for` iteration (loop invariants)
 
     # ===================================================================== calls
 
@@ -687,6 +688,10 @@ class Interp:
             if n > self.max_loop:
                 raise Unsupported("for loop iteration budget exceeded")
             self.assign(s.target, item, f)
+            if self.loop_heads:
+                for suffix, cb in self.loop_heads.items():
+                    if f.name.endswith(suffix):
+                        cb(f.locals, s.lineno)
             st = yield from self.exec_block(s.body, f)
             if st is _BREAK:
                 close = getattr(it, "close", None)
